@@ -64,9 +64,12 @@ class CtlExecutor:
         pass
 
     def release(self, perm):
+        # (the LAST len(perm) submissions: an implementation may keep one executor for several chunks)
+        base = len(self.pending) - len(perm)
+
         def work():
             for i in perm:
-                f, fn, args = self.pending[i]
+                f, fn, args = self.pending[base + i]
                 try:
                     f.set_result(fn(*args))
                 except BaseException as e:  # noqa
@@ -79,8 +82,9 @@ _orig_executor = concurrent.futures.ThreadPoolExecutor
 
 
 def _as_completed(fs, **kw):
+    fs = list(fs)
     ex = CTL.execs[-1]
-    perm = CTL.perm(len(ex.pending))
+    perm = CTL.perm(min(len(fs), len(ex.pending)))
     CTL.used.append(perm)
     # complete everything before the event loop looks: as_completed then yields in completion order
     ex.release(perm)
@@ -122,6 +126,29 @@ def gen_case(rng):
             'tqdm': rng.random() < 0.4, 'total': total}
 
 
+class _Hang(BaseException):
+    pass
+
+
+def _with_alarm(fn, seconds):
+    """run fn in this (the main) thread — `asyncio.get_event_loop()` needs it — and give up after `seconds`"""
+    import signal
+
+    def on_alarm(signum, frame):
+        raise _Hang()
+    old = signal.signal(signal.SIGALRM, on_alarm)
+    old_timer = signal.setitimer(signal.ITIMER_REAL, seconds)
+    try:
+        fn()
+    except _Hang:
+        pass
+    finally:
+        signal.setitimer(signal.ITIMER_REAL, 0)
+        signal.signal(signal.SIGALRM, old)
+        if old_timer and old_timer[0] > 0:
+            signal.setitimer(signal.ITIMER_REAL, max(0.001, old_timer[0] - 0.0), old_timer[1])
+
+
 def run_impl(case, rng):
     import taskchain.utils.threading as th
     import taskchain.utils.iter as it
@@ -138,18 +165,24 @@ def run_impl(case, rng):
     xs = case['xs']
     xs = [None if x == NONE else x for x in xs]
     arg = (x for x in xs) if case['gen'] else list(xs)
-    try:
-        if case['which'] == 'new':
-            r = th.parallel_map(f, arg, threads=case['threads'], sort=case['sort'], use_tqdm=case['tqdm'], total=case['total'], chunksize=case['c'])
-        else:
-            r = it.parallel_map(f, arg, threads=case['threads'])
-        out = {'ok': list(r)}
-    except Boom as e:
-        out = {'raise': e.args[0]}
-    except Exception as e:  # noqa  (anything else the implementation raises is an outcome to judge, not a harness error)
-        out = {'error': type(e).__name__}
+    box = {}
+
+    def call():
+        try:
+            if case['which'] == 'new':
+                r = th.parallel_map(f, arg, threads=case['threads'], sort=case['sort'], use_tqdm=case['tqdm'], total=case['total'], chunksize=case['c'])
+            else:
+                r = it.parallel_map(f, arg, threads=case['threads'])
+            box['out'] = {'ok': list(r)}
+        except Boom as e:
+            box['out'] = {'raise': e.args[0]}
+        except Exception as e:  # noqa  (anything else the implementation raises is an outcome to judge, not a harness error)
+            box['out'] = {'error': type(e).__name__}
+    # (a call that never returns — e.g. work handed to an executor the controller does not drive — is an outcome too)
+    _with_alarm(call, 20)
+    out = box.get('out', {'error': 'no result within 20 s'})
     for t in CTL.threads:
-        t.join()
+        t.join(5)
     return out, sorted(calls), [list(p) for p in CTL.used]
 
 
@@ -163,12 +196,16 @@ def run(ctx, search=False):
     try:
         n = ctx.n(300, 3000)
         cases, impl = [], []
+        hangs = 0
         for i in range(n):
             rng = ctx.rng('case', i)
             case = gen_case(rng)
             out, calls, orders = run_impl(case, rng)
             case['orders'] = orders
             cases.append(case); impl.append((out, calls))
+            hangs += str(out.get('error', '')).startswith('no result')
+            if hangs >= 3:
+                break           # an implementation whose calls do not return: three witnesses are enough
         reqs = []
         for case in cases:
             if case['which'] == 'new':
@@ -240,6 +277,53 @@ def run(ctx, search=False):
                 ctx.fail('chunked does not split into consecutive chunks of the requested size', cc, got)
     finally:
         uninstall()
+    real_pool_histories(ctx)
+
+
+def real_pool_histories(ctx):
+    """sequences of calls in ONE process on the real thread pool (no controller): every call is `map(f, xs)` again — whatever the earlier
+    calls were, also after a call in which `f` raised, with the same or another thread count"""
+    import taskchain.utils.threading as th
+    import taskchain.utils.iter as it
+    hangs = 0
+    for h in range(ctx.n(12, 120)):
+        if hangs >= 2:
+            break               # calls that do not return: two witnesses are enough
+        rng = ctx.rng('real-pool', h)
+        hist = []
+        for k in range(rng.randint(2, 5)):
+            n = rng.choice([0, 1, 3, 7, 12, 25])
+            xs = [rng.randint(-9, 9) for _ in range(n)]
+            hist.append({'xs': xs, 'threads': rng.choice([2, 2, 3, 4]), 'c': rng.choice([1, 3, 5, 20]), 'which': rng.choice(['new', 'new', 'old']),
+                         'fail': sorted({rng.choice(xs)}) if xs and rng.random() < 0.4 else [], 'sort': True})
+        case = {'history': hist, 'executor': 'real'}
+        ctx.case(case, nontrivial=True); ctx.count('real-pool-history')
+        for k, c in enumerate(hist):
+            def f(x, c=c):
+                if x in c['fail']:
+                    raise Boom(x)
+                return 3 * x + 1
+            box = {}
+
+            def call(c=c, f=f):
+                try:
+                    if c['which'] == 'new':
+                        box['out'] = {'ok': list(th.parallel_map(f, list(c['xs']), threads=c['threads'], sort=True, chunksize=c['c']))}
+                    else:
+                        box['out'] = {'ok': list(it.parallel_map(f, list(c['xs']), threads=c['threads']))}
+                except Boom as e:
+                    box['out'] = {'raise': e.args[0]}
+                except Exception as e:  # noqa
+                    box['out'] = {'error': f'{type(e).__name__}: {e}'[:120]}
+            _with_alarm(call, 30)
+            out = box.get('out', {'error': 'no result within 30 s'})
+            ctx.count('real-pool-call')
+            hangs += 'out' not in box
+            if c['fail']:
+                if 'raise' not in out or out['raise'] not in c['fail']:
+                    ctx.fail('exception of f not propagated', dict(case, call_index=k), out); break
+            elif out != {'ok': [3 * x + 1 for x in c['xs']]}:
+                ctx.fail('parallel_map(f, xs) != [f(x) for x in xs] after earlier calls in the same process', dict(case, call_index=k), out); break
 
 
 def search(ctx, divergences):
